@@ -917,15 +917,18 @@ fn main() {
                 ("memberof-range-deshape", "∊♭₂⇡ [3 4] \"abc\"", false),
                 ("memberof-range-deshape", "∊♭₂⇡ [1 2] \"\"", true),
                 ("memberof-range-rerank", "∊☇1⇡ [4] \"ab\"", false),
+                // repaired in round 8: e27a2a8 (ReduceDepth on rowless rows), 8ff4157 (split-by with no pieces),
+                // 549d4e2 (square-abs of complex numbers)
+                ("reduce-depth", "≡(⇌≡/↥) ↯0_1_3 0", true),
+                ("reduce-depth", "≡(□≡/↧↙2) ↯0_1 □0", true),
+                ("split-by-scalar-lit", "⊜□≠@ . \" \"", false),
+                ("split-by-mask-lit", "⊜□¬⦷\"ab\". \"ab\"", false),
+                ("square-abs", "×.⌵ [ℂ3 2 ℂ1 2]", false),
                 // still open
                 ("conjoin-inventory", "/◇⊂⍚(⊂0) []", true),
                 ("reduce-content", "≡(¤/◇⊂) []", true),
                 ("reduce-content", "/◇⊂ ↯0 □0", true),
-                ("square-abs", "×.⌵ [ℂ3 2 ℂ1 2]", false),
-                ("split-by-scalar-lit", "⊜□≠@ . \" \"", false),
-                ("split-by-mask-lit", "⊜□¬⦷\"ab\". \"ab\"", false),
-                ("reduce-depth", "≡(⇌≡/↥) ↯0_1_3 0", true),
-                ("reduce-depth", "≡(□≡/↧↙2) ↯0_1 □0", true),
+                ("square-abs", "×.⌵ map [1 2] [3 4]", false),
             ] {
                 progs.push((rule.to_string(), format!("# Experimental!\n{src}\n"), vec![], if empty { vec!["[]".into()] } else { vec![] }));
             }
